@@ -25,6 +25,7 @@ theorem itoaInt_ne_nil (i : Int) : itoaInt i ≠ [] := by
 def Val.ok : Val → Prop
   | .num text => text ≠ []
   | .richErr => False
+  | .time _ text nf nfMem => text ≠ [] ∧ nf = nfMem
   | _ => True
 
 def Item.ok : Item → Prop
@@ -47,99 +48,144 @@ theorem cell_eq_memory (x : Ext) (hx : ExtLaw x) (cs : ColStyles) (rowStyle : In
     cases v with
     | nil => simp [Item.isSkip] at hskip
     | richErr => simp [Item.ok, Val.ok] at hok
+    | time isNum text nf nfMem =>
+      obtain ⟨hne, hnf⟩ : text ≠ [] ∧ nf = nfMem := hok
+      subst hnf
+      cases isNum
+      · simp only [mkCell, setCellVal, Bool.false_eq_true, if_false, Except.ok.injEq] at h
+        subst h
+        simp [readCell, Spec.cellObs, Spec.valObs, Spec.valStyle, prepareCellStyle, lit_b, lit_str, lit_inline]
+      · simp only [mkCell, setCellVal, if_true, Except.ok.injEq] at h
+        subst h
+        by_cases hr : rowStyle = 0 <;> by_cases hc : colStyleAt cs col = 0 <;>
+          simp [readCell, Spec.cellObs, Spec.valObs, Spec.valStyle, prepareCellStyle, lit_b, lit_str, lit_inline, hne, hr, hc]
     | int i =>
       simp only [mkCell, setCellVal, Except.ok.injEq] at h
       subst h
       have := itoaInt_ne_nil i
-      simp [readCell, Spec.cellObs, Spec.valObs, prepareCellStyle, lit_b, lit_str, lit_inline, this]
+      simp [readCell, Spec.cellObs, Spec.valObs, Spec.valStyle, prepareCellStyle, lit_b, lit_str, lit_inline, this]
     | bool b =>
       simp only [mkCell, setCellVal, Except.ok.injEq] at h
       subst h
-      simp [readCell, Spec.cellObs, Spec.valObs, prepareCellStyle, lit_b, lit_str, lit_inline]
+      simp [readCell, Spec.cellObs, Spec.valObs, Spec.valStyle, prepareCellStyle, lit_b, lit_str, lit_inline]
     | num text =>
       simp only [mkCell, setCellVal, Except.ok.injEq] at h
       subst h
       have : text ≠ [] := hok
-      simp [readCell, Spec.cellObs, Spec.valObs, prepareCellStyle, lit_b, lit_str, lit_inline, this]
+      simp [readCell, Spec.cellObs, Spec.valObs, Spec.valStyle, prepareCellStyle, lit_b, lit_str, lit_inline, this]
     | str s =>
       simp only [mkCell, setCellVal, Option.isSome_none, Bool.false_eq_true, if_false, Except.ok.injEq] at h
       subst h
-      simp [readCell, Spec.cellObs, Spec.valObs, prepareCellStyle, lit_b, lit_str, lit_inline]
+      simp [readCell, Spec.cellObs, Spec.valObs, Spec.valStyle, prepareCellStyle, lit_b, lit_str, lit_inline]
     | rich xml =>
       simp only [mkCell, setCellVal, Except.ok.injEq] at h
       subst h
-      simp [readCell, Spec.cellObs, Spec.valObs, prepareCellStyle, lit_b, lit_str, lit_inline]
+      simp [readCell, Spec.cellObs, Spec.valObs, Spec.valStyle, prepareCellStyle, lit_b, lit_str, lit_inline]
   | cell style formula v =>
     by_cases hf : formula = []
     · subst hf
       cases v with
       | richErr => simp [Item.ok, Val.ok] at hok
+      | time isNum text nf nfMem =>
+        obtain ⟨hne, hnf⟩ : text ≠ [] ∧ nf = nfMem := hok
+        subst hnf
+        cases isNum
+        · by_cases hs : style > 0 <;>
+          · simp [mkCell, setCellFormula, setCellVal, hs] at h
+            subst h
+            simp [readCell, Spec.cellObs, Spec.valObs, Spec.valStyle, prepareCellStyle, lit_b, lit_str, lit_inline, hs]
+        · by_cases hs : style > 0
+          · simp [mkCell, setCellFormula, setCellVal, hs] at h
+            subst h
+            have hs0 : style ≠ 0 := by omega
+            simp [readCell, Spec.cellObs, Spec.valObs, Spec.valStyle, prepareCellStyle, lit_b, lit_str, lit_inline, hs, hs0, hne]
+          · simp [mkCell, setCellFormula, setCellVal, hs] at h
+            subst h
+            by_cases hr : rowStyle = 0 <;> by_cases hc : colStyleAt cs col = 0 <;>
+              simp [readCell, Spec.cellObs, Spec.valObs, Spec.valStyle, prepareCellStyle, lit_b, lit_str, lit_inline, hs, hne, hr, hc]
       | nil =>
         simp only [mkCell, setCellFormula, setCellVal, Except.ok.injEq] at h
         subst h
         by_cases hs : style > 0 <;>
-          simp [readCell, Spec.cellObs, Spec.valObs, prepareCellStyle, lit_b, lit_str, lit_inline, hs]
+          simp [readCell, Spec.cellObs, Spec.valObs, Spec.valStyle, prepareCellStyle, lit_b, lit_str, lit_inline, hs]
       | int i =>
         simp only [mkCell, setCellFormula, setCellVal, Except.ok.injEq] at h
         subst h
         have := itoaInt_ne_nil i
         by_cases hs : style > 0 <;>
-          simp [readCell, Spec.cellObs, Spec.valObs, prepareCellStyle, lit_b, lit_str, lit_inline, hs, this]
+          simp [readCell, Spec.cellObs, Spec.valObs, Spec.valStyle, prepareCellStyle, lit_b, lit_str, lit_inline, hs, this]
       | bool b =>
         simp only [mkCell, setCellFormula, setCellVal, Except.ok.injEq] at h
         subst h
         by_cases hs : style > 0 <;>
-          simp [readCell, Spec.cellObs, Spec.valObs, prepareCellStyle, lit_b, lit_str, lit_inline, hs]
+          simp [readCell, Spec.cellObs, Spec.valObs, Spec.valStyle, prepareCellStyle, lit_b, lit_str, lit_inline, hs]
       | num text =>
         simp only [mkCell, setCellFormula, setCellVal, Except.ok.injEq] at h
         subst h
         have : text ≠ [] := hok
         by_cases hs : style > 0 <;>
-          simp [readCell, Spec.cellObs, Spec.valObs, prepareCellStyle, lit_b, lit_str, lit_inline, hs, this]
+          simp [readCell, Spec.cellObs, Spec.valObs, Spec.valStyle, prepareCellStyle, lit_b, lit_str, lit_inline, hs, this]
       | str s =>
         by_cases hs : style > 0 <;>
         · simp [mkCell, setCellFormula, setCellVal, hs] at h
           subst h
-          simp [readCell, Spec.cellObs, Spec.valObs, prepareCellStyle, lit_b, lit_str, lit_inline, hs]
+          simp [readCell, Spec.cellObs, Spec.valObs, Spec.valStyle, prepareCellStyle, lit_b, lit_str, lit_inline, hs]
       | rich xml =>
         simp only [mkCell, setCellFormula, setCellVal, Except.ok.injEq] at h
         subst h
         by_cases hs : style > 0 <;>
-          simp [readCell, Spec.cellObs, Spec.valObs, prepareCellStyle, lit_b, lit_str, lit_inline, hs]
+          simp [readCell, Spec.cellObs, Spec.valObs, Spec.valStyle, prepareCellStyle, lit_b, lit_str, lit_inline, hs]
     · cases v with
       | richErr => simp [Item.ok, Val.ok] at hok
+      | time isNum text nf nfMem =>
+        obtain ⟨hne, hnf⟩ : text ≠ [] ∧ nf = nfMem := hok
+        subst hnf
+        cases isNum
+        · by_cases hs : style > 0 <;>
+          · simp [mkCell, setCellFormula, setCellVal, hs, hf] at h
+            subst h
+            simp [readCell, Spec.cellObs, Spec.valObs, Spec.valStyle, prepareCellStyle, lit_b, lit_str, lit_inline, hs, hf]
+        · by_cases hs : style > 0
+          · simp [mkCell, setCellFormula, setCellVal, hs, hf] at h
+            subst h
+            have hs0 : style ≠ 0 := by omega
+            simp [readCell, Spec.cellObs, Spec.valObs, Spec.valStyle, prepareCellStyle, lit_b, lit_str, lit_inline, hs, hs0, hne, hf]
+          · simp [mkCell, setCellFormula, setCellVal, hs, hf] at h
+            subst h
+            by_cases hr : rowStyle = 0 <;> by_cases hc : colStyleAt cs col = 0 <;>
+              simp [readCell, Spec.cellObs, Spec.valObs, Spec.valStyle, prepareCellStyle, lit_b, lit_str, lit_inline, hs, hne, hr, hc, hf]
       | nil =>
         simp only [mkCell, setCellFormula, setCellVal, Except.ok.injEq] at h
         subst h
         by_cases hs : style > 0 <;>
-          simp [readCell, Spec.cellObs, Spec.valObs, prepareCellStyle, lit_b, lit_str, lit_inline, hs, hf, hx.nil]
+          simp [readCell, Spec.cellObs, Spec.valObs, Spec.valStyle, prepareCellStyle, lit_b, lit_str, lit_inline, hs, hf, hx.nil]
       | int i =>
         simp only [mkCell, setCellFormula, setCellVal, Except.ok.injEq] at h
         subst h
         have := itoaInt_ne_nil i
         by_cases hs : style > 0 <;>
-          simp [readCell, Spec.cellObs, Spec.valObs, prepareCellStyle, lit_b, lit_str, lit_inline, hs, hf, this]
+          simp [readCell, Spec.cellObs, Spec.valObs, Spec.valStyle, prepareCellStyle, lit_b, lit_str, lit_inline, hs, hf, this]
       | bool b =>
         simp only [mkCell, setCellFormula, setCellVal, Except.ok.injEq] at h
         subst h
         by_cases hs : style > 0 <;>
-          simp [readCell, Spec.cellObs, Spec.valObs, prepareCellStyle, lit_b, lit_str, lit_inline, hs, hf]
+          simp [readCell, Spec.cellObs, Spec.valObs, Spec.valStyle, prepareCellStyle, lit_b, lit_str, lit_inline, hs, hf]
       | num text =>
         simp only [mkCell, setCellFormula, setCellVal, Except.ok.injEq] at h
         subst h
         have : text ≠ [] := hok
         by_cases hs : style > 0 <;>
-          simp [readCell, Spec.cellObs, Spec.valObs, prepareCellStyle, lit_b, lit_str, lit_inline, hs, hf, this]
+          simp [readCell, Spec.cellObs, Spec.valObs, Spec.valStyle, prepareCellStyle, lit_b, lit_str, lit_inline, hs, hf, this]
       | str s =>
         by_cases hs : style > 0 <;>
         · simp [mkCell, setCellFormula, setCellVal, hs, hf] at h
           subst h
-          simp [readCell, Spec.cellObs, Spec.valObs, prepareCellStyle, lit_b, lit_str, lit_inline, hs, hf, hx.inv]
+          simp [readCell, Spec.cellObs, Spec.valObs, Spec.valStyle, prepareCellStyle, lit_b, lit_str, lit_inline, hs, hf, hx.inv]
       | rich xml =>
         simp only [mkCell, setCellFormula, setCellVal, Except.ok.injEq] at h
         subst h
         by_cases hs : style > 0 <;>
-          simp [readCell, Spec.cellObs, Spec.valObs, prepareCellStyle, lit_b, lit_str, lit_inline, hs, hf]
+          simp [readCell, Spec.cellObs, Spec.valObs, Spec.valStyle, prepareCellStyle, lit_b, lit_str, lit_inline, hs, hf]
 
 /-- a reference produced by `CoordinatesToCellName` decodes to the coordinates it was made from -/
 theorem encode_decode_int {col row : Int} {ref : Bytes}
